@@ -121,6 +121,7 @@ class Loop:
     func: Func
     cond: tuple = None
     init: dict = field(default_factory=dict)
+    as_lc: dict = field(default_factory=dict)   # accumulators recognised as list comprehensions
 
 
 @dataclass
@@ -531,7 +532,11 @@ class _Run:
                 env[k] = va
             else:
                 env[k] = T.mk_phi([(c, va), (T.mk_not(c), vb)])
-        return State(env, st.guard, None)
+        g = st.guard
+        if a.guard != T.mk_and([st.guard, c]) or b.guard != T.mk_and([st.guard, T.mk_not(c)]):
+            # a nested branch left (raise / return): what continues is the union of what reaches the two ends
+            g = T.mk_or([a.guard, b.guard])
+        return State(env, g, None)
 
     def _pending_exits(self, *states) -> None:
         pass
@@ -574,11 +579,64 @@ class _Run:
                 val = end.env[nm]
                 if nm in init and val == ('lphi', lid, nm):
                     out.env[nm] = init[nm]
+                    continue
+                lc = self._loop_as_comprehension(s, loop, nm, init.get(nm), val) if kind == 'for' else None
+                if lc is not None:
+                    loop.as_lc[nm] = lc
+                    out.env[nm] = lc
                 else:
                     out.env[nm] = ('loopres', lid, nm, init.get(nm, ('unk', 'undef')), val)
         if s.orelse:
             out = self.block(s.orelse, out)
         return out
+
+    def _loop_as_comprehension(self, s, loop, nm, initv, val):
+        """An accumulator that starts as [] and to which every iteration appends at most one element computed from
+        the loop variable alone is the list comprehension over the same iterable (so that unrolling a comprehension
+        into a loop, or the reverse, does not change what the rules see)."""
+        if initv is None or tag(initv) != 'list' or initv[1]:
+            return None
+        if any(isinstance(n, (ast.Break, ast.Continue, ast.Return, ast.Yield)) for b in s.body for n in ast.walk(b)):
+            return None
+        if s.orelse:
+            return None
+        lid = loop.id
+        lphi = ('lphi', lid, nm)
+
+        def appended(v):
+            if tag(v) == 'mcall' and v[1] == lphi and v[2] == 'append' and len(v[3]) == 1:
+                return v[3][0]
+            if tag(v) == 'bin' and v[1] == '+' and v[2] == lphi and tag(v[3]) == 'list' and len(v[3][1]) == 1:
+                return v[3][1][0]
+            return None
+        alts = val[1] if tag(val) == 'phi' else ((TRUE, val),)
+        adds, skips = [], []
+        for g, v in alts:
+            if v == lphi:
+                skips.append(g)
+                continue
+            e = appended(v)
+            if e is None:
+                return None
+            adds.append((g, e))
+        if not adds:
+            return None
+        elem = adds[0][1] if len(adds) == 1 else T.mk_phi(adds)
+        conds = () if not skips else (T.mk_or([g for g, _ in adds]),)
+        carried = lambda x: (tag(x) in ('lphi', 'loopres') and x[1] == lid) or tag(x) == 'cv'
+        if T.contains(elem, carried) or any(T.contains(c, carried) for c in conds):
+            return None
+        d = self.cvdepth + 1
+        if loop.kind == 'enumerate':
+            it = ('call', ('g', 'builtins.enumerate'), (loop.iter,), ())
+            mapping = {('lv', lid, 'idx'): ('cv', d, '0.idx'), ('lv', lid, 'elem'): ('cv', d, '0.elem')}
+        else:
+            it = loop.iter
+            mapping = {('lv', lid, 'elem'): ('cv', d, '0')}
+            if isinstance(s.target, (ast.Tuple, ast.List)):
+                for i in range(len(s.target.elts)):
+                    mapping[('lv', lid, f'elem{i}')] = ('cv', d, f'0.{i}')
+        return ('lc', 'list', T.subst(elem, mapping), ((it, tuple(T.subst(c, mapping) for c in conds)),))
 
     def _bind_loop_target(self, tgt, it, lid, st, s) -> None:
         pit = T.peel(it)
@@ -710,7 +768,7 @@ class _Run:
         # enclosing function's locals are not tracked: treat as free symbol
         f = self.func.parent
         while f is not None:
-            if nm in _assigned_names(f.node.body) | set(f.params):
+            if nm in _bound_names(f.node.body) | set(f.params):
                 return ('free', nm)
             f = f.parent
         q = self.p.resolve_static(self.func.module, e, self.func)
@@ -1143,6 +1201,22 @@ def _assigned_names(stmts) -> set:
                 b = _store_base(n)
                 if isinstance(b, ast.Name):
                     out.add(b.id)
+    return out
+
+
+def _bound_names(stmts) -> set:
+    """Names *bound* by the statements (assignment / for / with / import / def / class): a name that is only
+    modified in place (x.update(..), x[k] = v) is not bound there and resolves further out."""
+    out = set()
+    for s in stmts:
+        for n in ast.walk(s):
+            if isinstance(n, ast.Name) and isinstance(n.ctx, (ast.Store, ast.Del)):
+                out.add(n.id)
+            elif isinstance(n, (ast.FunctionDef, ast.AsyncFunctionDef, ast.ClassDef)):
+                out.add(n.name)
+            elif isinstance(n, (ast.Import, ast.ImportFrom)):
+                for a in n.names:
+                    out.add((a.asname or a.name).split('.')[0])
     return out
 
 
